@@ -1562,6 +1562,55 @@ class BytesIOModel:
         return None
 
 
+class _LiveKeys(dict):
+    """the key objects of a dictionary view over an instance's attributes: always the attribute names themselves"""
+    def __init__(self, attrs):
+        super().__init__()
+        self.attrs = attrs
+
+    def __getitem__(self, k):
+        return K(k)
+
+    def get(self, k, d=None):
+        return K(k) if k in self.attrs else d
+
+    def __contains__(self, k):
+        return k in self.attrs
+
+    def values(self):
+        return [K(k) for k in self.attrs]
+
+    def items(self):
+        return [(k, K(k)) for k in self.attrs]
+
+    def keys(self):
+        return self.attrs.keys()
+
+    def __iter__(self):
+        return iter(self.attrs)
+
+    def __len__(self):
+        return len(self.attrs)
+
+    def pop(self, k, *d):
+        return K(k)
+
+    def __setitem__(self, k, v):
+        pass
+
+    def __delitem__(self, k):
+        pass
+
+    def update(self, *a, **k):
+        pass
+
+    def clear(self):
+        pass
+
+    def setdefault(self, k, v=None):
+        return K(k)
+
+
 class SingleDispatch:
     """functools.singledispatch(f): the implementation registered for the nearest class in the MRO of the first argument's type, f itself
     for everything else.  Registrations are the `@f.register(...)` / `@f.register` decorations and `f.register(T, g)` calls at module level
@@ -2818,12 +2867,11 @@ def builtin(it, name, args, kw, n):
             return K(None)
         raise Fail('setattr with unknown name')
     if name == 'vars' and len(args) == 1 and isinstance(args[0], Inst) and args[0].native is None:
-        # the instance dictionary, in the order the attributes were first assigned (a snapshot: writes through it are not followed)
+        # the instance dictionary itself, in the order the attributes were first assigned: a live view - what is written through it
+        # (`vars(self).update(...)`) is an attribute of the object
         d = DictV()
-        for k_, v_ in args[0].attrs.items():
-            d.d[k_] = v_
-            d.keyobj[k_] = K(k_)
-        d.frozen_view = True
+        d.d = args[0].attrs
+        d.keyobj = _LiveKeys(args[0].attrs)
         return d
     if name == 'getattr':
         o, k = args[:2]
